@@ -35,7 +35,13 @@ theorem dom_of_dom2 (e : Expr) (v : Nat → ℝ) (h : Dom2 e v) : Dom e v := by
   | mul a b iha ihb => exact ⟨iha h.1, ihb h.2⟩
   | div a b iha ihb => exact ⟨iha h.1, ihb h.2.1, h.2.2⟩
   | neg a iha => exact iha h
-  | powc a p iha => exact ⟨iha h.1, Or.inl h.2⟩
+  | powc a p iha =>
+    refine ⟨iha h.1, ?_⟩
+    rcases h.2 with h0 | h2 | h1 | h0
+    · exact Or.inl h0
+    · exact Or.inr (Or.inl (by linarith))
+    · exact Or.inr (Or.inl (by rw [h1]))
+    · exact Or.inr (Or.inr h0)
   | exp a iha => exact iha h
   | log a iha => exact ⟨iha h.1, h.2⟩
   | ncdf a iha => exact iha h
@@ -133,5 +139,11 @@ theorem C02_hessian_entries (d : Dual2 ℝ) (v w : String) :
 example : Dom2 (.div (.log (.mul (.leaf 0) (.leaf 1))) (.leaf 2)) (fun i => (i : ℝ) + 2) := by
   simp only [Dom2, evalR, true_and]
   norm_num
+
+/-- a power with base exactly 0 is inside the domain of the theorems wherever `x^p` is twice differentiable
+there — `p ≥ 2` and the polynomials `x¹`, `x⁰` (the repaired code, known_findings.json, returns 0 · ∞ no more) -/
+example : Dom2 (.powc (.leaf 0) 1) (fun _ => (0 : ℝ)) ∧ Dom2 (.powc (.leaf 0) 0) (fun _ => (0 : ℝ)) ∧
+    Dom2 (.powc (.leaf 0) 3) (fun _ => (0 : ℝ)) := by
+  refine ⟨?_, ?_, ?_⟩ <;> simp only [Dom2, evalR, true_and] <;> norm_num
 
 end Rateslib
